@@ -43,6 +43,12 @@ def main():
     if a.prop not in REGISTRY:
         print("unknown property", a.prop)
         return 2
+    if a.replay:
+        try:
+            import json
+            a.tier = json.load(open(a.replay)).get("replay", {}).get("tier", a.tier)
+        except Exception:
+            pass
     os.environ["VERIF_TIER"] = a.tier
     modname, fn = REGISTRY[a.prop]
     try:
